@@ -269,15 +269,13 @@ def run(ctx):
         if b is None:
             ctx.missing("R-GRD", short(owner) + "::read_payload", n)
             continue
-        oc = outcome(b)
-        from engine.rules import variant_edge_fails
-        found, ok, detail = variant_edge_fails(b, r"checked_sub\(.*pdu_len.*mem::size_of\(\)\)$", 0, oc)
+        found, ok, detail = short_length_fails(f, b, fx)
         ctx.ob("R-GRD", "%s::read_payload:length>=fixed" % short(owner), found and ok,
                "%s::read_payload fails when the announced length is smaller than the fixed part" % short(owner), where=b.loc, detail=detail)
     ab = f.body(P + "Aspa::read_payload::{closure#0}")
     if ab is not None:
-        g = eq_matcher(r"^Rem\(.*checked_sub.*, 4\)$", r"^0$")
-        mp = MustPass(f, lambda c: False, guard_fn=lambda bd, s_, bb: guard_edges(bd, s_, bb, g), name="providers % 4 == 0")
+        mp = MustPass(f, lambda c: False, guard_fn=lambda bd, s_, bb: multiple_of_edges(f, bd, s_, bb, P + "AspaFixed", 4),
+                      name="providers % 4 == 0")
         ok = mp.holds(ab.name)
         ctx.ob("R-GRD", "Aspa::read_payload:providers-multiple-of-4", ok,
                "Aspa::read_payload succeeds only if the provider list length is a multiple of 4", where=ab.loc,
@@ -474,3 +472,248 @@ def check_payload_new(ctx, f):
 def _ordinal(b, c):
     same = [x for x in b.calls() if x.name == c.name and not b.is_cleanup(x.bb)]
     return same.index(c) if c in same else 0
+
+
+# ---------------------------------------------------------------------------------------------------------------
+# Option / Result plumbing.  A test of an Option can be spelt `match x { None => … }`, `let Some(v) = x else { … }`,
+# `x.ok_or_else(…)?`, `x.filter(p).ok_or(…)?`, `if x.is_none() { … }`, …  What the rules below need is: "on which edge
+# of this switch is the Option X known to be None (or: known to be Some)".  The models state only which variant comes
+# out of a std combinator for which variant going in — their documented contract.
+
+_PRIM_SIZE = {"u8": 1, "i8": 1, "u16": 2, "i16": 2, "u32": 4, "i32": 4, "u64": 8, "i64": 8, "u128": 16, "i128": 16}
+_OPT_FN = re.compile(r"^(std|core)::option::Option::<")
+_RES_FN = re.compile(r"^(std|core)::result::Result::<")
+# Option → Option, None stays None; the second set also keeps the payload of Some
+_OPT_NONE_KEEPING = {"map", "and_then", "filter", "inspect", "copied", "cloned", "as_ref", "as_mut", "as_deref", "zip", "and"}
+_OPT_PAYLOAD_KEEPING = {"filter", "inspect", "copied", "cloned", "as_ref", "as_mut", "as_deref"}
+_RES_ERR_KEEPING = {"map", "map_err", "and_then", "inspect", "inspect_err", "copied", "cloned", "as_ref", "as_mut", "and"}
+_RES_PAYLOAD_KEEPING = {"map_err", "inspect", "inspect_err", "copied", "cloned", "as_ref", "as_mut"}
+_FAIL_DISCR = {"option": 0, "result": 1, "flow": 1}        # None / Err / Break
+
+
+def int_value(t, f):
+    """Value of an integer-valued constant expression: literal, named constant of the crate, `size_of::<T>()` of a
+    primitive or of a crate type (compiler-computed layout), through casts."""
+    t = strip_deep(t)
+    if t[0] == "const" and isinstance(t[1], int) and not isinstance(t[1], bool):
+        return t[1]
+    if t[0] == "cdef":
+        v = (f.consts.get(t[1]) or {}).get("v")
+        return v if isinstance(v, int) and not isinstance(v, bool) else None
+    if t[0] == "cast":
+        return int_value(t[1], f)
+    if t[0] == "call" and not t[2] and (t[3] or {}).get("name") == "size_of" and (t[3].get("res") or "").endswith("mem::size_of"):
+        ga = t[3].get("ga") or ()
+        if len(ga) == 1:
+            if ga[0] in _PRIM_SIZE:
+                return _PRIM_SIZE[ga[0]]
+            rec = f.adts.get(ga[0])
+            return rec.get("size") if rec else None
+    return None
+
+
+def none_image(t, is_target, keep_payload=False):
+    """`t` is built from an Option X with is_target(X) by std combinators under which "X is None" forces a fixed variant
+    of `t`: returns the kind of `t` ('option' | 'result' | 'flow'); its failing variant is _FAIL_DISCR[kind].  With
+    keep_payload only combinators under which the payload of the non-failing variant is X's payload are followed.
+    None when `t` is not of that form."""
+    t = strip_deep(t)
+    if is_target(t):
+        return "option"
+    if t[0] != "call" or not t[2]:
+        return None
+    info = t[3] or {}
+    name, fn = info.get("name"), info.get("fn") or ""
+    inner = none_image(t[2][0], is_target, keep_payload)
+    if inner is None:
+        return None
+    if name == "branch" and (info.get("trait") or "").endswith("ops::Try"):
+        return "flow" if inner in ("option", "result") else None
+    if inner == "option" and _OPT_FN.match(fn):
+        if name in (_OPT_PAYLOAD_KEEPING if keep_payload else _OPT_NONE_KEEPING):
+            return "option"
+        if name in ("ok_or", "ok_or_else"):
+            return "result"
+    if inner == "result" and _RES_FN.match(fn):
+        if name in (_RES_PAYLOAD_KEEPING if keep_payload else _RES_ERR_KEEPING):
+            return "result"
+        if name == "ok":
+            return "option"
+    return None
+
+
+def payload_of(t, is_target):
+    """`t` is the payload of the non-failing variant of a value built from the Option X (see none_image, payload kept):
+    `X↓Some.0`, `Try::branch(X.ok_or(e))↓Continue.0`, …"""
+    t = strip_deep(t)
+    while t[0] == "cast":
+        t = strip_deep(t[1])
+    if t[0] == "field" and t[2] == "0" and t[1][0] == "variant" and t[1][2] in ("Some", "Ok", "Continue"):
+        return none_image(t[1][1], is_target, keep_payload=True) is not None
+    return False
+
+
+def edge_for(b, bb, v):
+    t = b.term(bb)
+    for val, tb in t["targets"]:
+        if val == v:
+            return tb
+    return t["otherwise"]
+
+
+def edges_except(b, bb, v):
+    t = b.term(bb)
+    out = [(bb, tb) for val, tb in t["targets"] if val != v]
+    if any(val == v for val, _ in t["targets"]):
+        out.append((bb, t["otherwise"]))
+    return out
+
+
+def none_edges(b, sym, bb, is_target):
+    """Targets of the switch at `bb` taken when the Option X (is_target) is None; None if the switch does not test X."""
+    t = b.term(bb)
+    if t["t"] != "switch":
+        return None
+    d = strip(sym.operand(t["discr"]))
+    if d[0] == "discr":
+        kind = none_image(d[1], is_target)
+        return [edge_for(b, bb, _FAIL_DISCR[kind])] if kind else None
+    if t.get("dty") == "bool":
+        at = bool_atom(d)
+        if at and isinstance(at[0], tuple) and len(at[1]) == 1:
+            kind = none_image(at[1][0], is_target)
+            nm = at[0][2]
+            fails_when = {("option", "is_none"): True, ("option", "is_some"): False,
+                          ("result", "is_err"): True, ("result", "is_ok"): False}.get((kind, nm))
+            if fails_when is not None:
+                fe, te = switch_bool_edges(b, bb)
+                return [te if fails_when == at[3] else fe]
+    return None
+
+
+def _is_announced_length(t):
+    """The PDU length announced by a header: `Header::pdu_len(h)?` / `Header::length(h)` (public accessors), cast or unwrapped."""
+    t = strip_deep(t)
+    while True:
+        if t[0] == "cast":
+            t = strip_deep(t[1])
+        elif t[0] == "field" and t[2] == "0" and t[1][0] == "variant" and t[1][2] in ("Ok", "Continue", "Some"):
+            t = strip_deep(t[1][1])
+        elif t[0] == "call" and (t[3] or {}).get("name") == "branch" and ((t[3] or {}).get("trait") or "").endswith("ops::Try") and t[2]:
+            t = strip_deep(t[2][0])
+        else:
+            break
+    return t[0] == "call" and (t[3] or {}).get("res") in (P + "Header::pdu_len", P + "Header::length")
+
+
+def _is_len_minus(t, f, size):
+    """`announced_length.checked_sub(size)`"""
+    return t[0] == "call" and (t[3] or {}).get("name") == "checked_sub" and ((t[3] or {}).get("fn") or "").startswith("core::num::") \
+        and len(t[2]) == 2 and _is_announced_length(t[2][0]) and int_value(t[2][1], f) == size
+
+
+def short_length_fails(f, b, fx):
+    """Every test of "announced length >= size of the fixed part" — whether as a match / `?` / `is_none` on
+    `len.checked_sub(size)` or as a comparison `len < size` — sends the too-short case to failure; and there is such a
+    test.  -> (found, ok, detail)"""
+    from engine import orderlogic as OL
+    oc = outcome(b)
+    sym, reach = oc.sym, oc.success_reach()
+    size = (f.adts.get(fx) or {}).get("size")
+    if size is None:
+        return (False, False, "no layout for " + fx)
+    is_t = lambda t: _is_len_minus(t, f, size)
+    found, bad = 0, []
+    for bi, blk in enumerate(b.blocks):
+        t = blk["term"]
+        if t["t"] != "switch" or blk.get("cleanup"):
+            continue
+        fail = none_edges(b, sym, bi, is_t)
+        if fail is None and t.get("dty") == "bool":
+            a, truth = OL.atom(sym.operand(t["discr"])), True
+            while a[0] == "not":
+                a, truth = a[1], not truth
+            if a[0] == "cmp":
+                op = None
+                if _is_announced_length(a[2]) and int_value(a[3], f) == size:
+                    op = a[1]
+                elif _is_announced_length(a[3]) and int_value(a[2], f) == size:
+                    op = {"<": ">", "<=": ">=", ">": "<", ">=": "<=", "==": "==", "!=": "!="}[a[1]]
+                # op: announced length <op> size
+                short_when = {"<": True, ">=": False}.get(op)
+                if short_when is not None:
+                    fe, te = switch_bool_edges(b, bi)
+                    fail = [te if short_when == truth else fe]
+        if fail is None:
+            continue
+        found += 1
+        for tb in fail:
+            if tb in reach:
+                bad.append("bb%d (line %s): the too-short edge → bb%d reaches a success return" % (bi, b.line_of(bi), tb))
+    if not found:
+        return (False, False, "no test of the announced length against the %d octets of %s in %s" % (size, short(fx), b.name))
+    return (True, not bad, bad or None)
+
+
+def _rem_of(t, f):
+    """(dividend, divisor value) of `a % k` (operator or `Rem::rem`)."""
+    t = strip_deep(t)
+    if t[0] == "bin" and t[1] == "Rem":
+        return t[2], int_value(t[3], f)
+    if t[0] == "call" and (t[3] or {}).get("name") == "rem" and ((t[3] or {}).get("trait") or "").endswith("ops::Rem") and len(t[2]) == 2:
+        return t[2][0], int_value(t[2][1], f)
+    return None
+
+
+def _multiple_lit(f, k, is_value):
+    """orderlogic literal `v % k == 0` with is_value(v)."""
+    def lit(a):
+        if a[0] != "cmp" or a[1] not in ("==", "!="):
+            return None
+        for x, y in ((a[2], a[3]), (a[3], a[2])):
+            r = _rem_of(x, f)
+            if r and r[1] == k and int_value(y, f) == 0 and is_value(r[0]):
+                return a[1] == "=="
+        return None
+    return lit
+
+
+def multiple_of_edges(f, b, sym, bb, fx, k):
+    """Edges of the switch at `bb` on which "(announced length − size of the fixed part) % k == 0" is known: the literal
+    tested directly on the difference, or the Some/Ok/Continue edge of a value built from
+    `len.checked_sub(size).filter(|v| v % k == 0)`."""
+    from engine import orderlogic as OL
+    t = b.term(bb)
+    if t["t"] != "switch":
+        return None
+    size = (f.adts.get(fx) or {}).get("size")
+    is_t = lambda x: _is_len_minus(x, f, size)
+    d = strip(sym.operand(t["discr"]))
+    if t.get("dty") == "bool":
+        a, truth = OL.atom(d), True
+        while a[0] == "not":
+            a, truth = a[1], not truth
+        m = _multiple_lit(f, k, lambda v: payload_of(v, is_t))(a)
+        if m is None:
+            return None
+        fe, te = switch_bool_edges(b, bb)
+        return [(bb, te if m == truth else fe)]
+    if d[0] != "discr":
+        return None
+
+    def is_filtered(x):
+        if not (x[0] == "call" and (x[3] or {}).get("name") == "filter" and _OPT_FN.match((x[3] or {}).get("fn") or "") and len(x[2]) == 2):
+            return False
+        if none_image(x[2][0], is_t, keep_payload=True) != "option":
+            return False
+        ct = strip(x[2][1])
+        cb = f.body(ct[1]) if ct[0] == "closure" else None
+        if cb is None or cb.arg_count < 2:
+            return False
+        elem = strip_deep(K.sym_of(cb).local(2))
+        ok, _ = OL.implies(cb, K.sym_of(cb), True, _multiple_lit(f, k, lambda v: strip_deep(v) == elem))
+        return ok
+    kind = none_image(d[1], is_filtered, keep_payload=True)
+    if kind is None:
+        return None
+    return edges_except(b, bb, _FAIL_DISCR[kind])
